@@ -173,3 +173,21 @@ func (t *VT) TxEcho(_ *types.Sender, a string, b string) (string, error) {
 	}
 	return a + "|" + b, nil
 }
+
+// TxWhoAmI / NBTxWhoAmINb / QueryWhoAmIQ report the authenticated sender and leave a mark.
+func (t *VT) TxWhoAmI(sender *types.Sender) (string, error) {
+	if err := t.GetStub().PutState("who", []byte(sender.Address().String())); err != nil {
+		return "", err
+	}
+	return sender.Address().String(), nil
+}
+
+func (t *VT) NBTxWhoAmINb(sender *types.Sender) (string, error) { return t.TxWhoAmI(sender) }
+
+func (t *VT) QueryWhoAmIQ(sender *types.Sender) (string, error) { return t.TxWhoAmI(sender) }
+
+// NBTxEchoNb is TxEcho on the immediate route.
+func (t *VT) NBTxEchoNb(s *types.Sender, a string, b string) (string, error) { return t.TxEcho(s, a, b) }
+
+// TxEchoB has the same shape as TxEcho (used to test that the function name is covered).
+func (t *VT) TxEchoB(s *types.Sender, a string, b string) (string, error) { return t.TxEcho(s, a, b) }
